@@ -8,7 +8,9 @@ META = {
     "level": "proof",
     "level_text": ("Theorem C02.wellformed_reachable: for every environment satisfying ComposeSpec (discharged for the concrete "
                    "Compose port with any translation oracle by C02.wellformed_reachable_concrete, and for the Compose with the punctuation "
-                   "components by C02.wellformed_reachable_punct, stated over the pair of environments of the full_shape option) and every finite list of API ops "
+                   "components by C02.wellformed_reachable_punct, stated over the pair of environments of the full_shape option; for schemas with a key binder "
+                   "by C02.wellformed_reachable_keybinder / _keybinder_punct, whatever the binding list and the switches; for schemas with an ascii composer and "
+                   "for every timing of the calls by C02.wellformed_reachable_timed) and every finite list of API ops "
                    "from a fresh session, the view (input, caret, preedit, menu) is WellFormed; proved by an inductive invariant over "
                    "every context mutator, processor action (default keymaps regenerated from source) and API op. The model is run "
                    "op-for-op against the real librime on synthetic schemas (same C++ context/engine/processor code) and every "
@@ -20,8 +22,33 @@ META = {
                    "(all four kinds of definition, shape labels), the full_shape formatter and post-processor; the invariant is proved for it "
                    "(punctProcess_inv, composeP_spec -> C02.wellformed_reachable_punct / _shaped) and two synthetic schemas (vs_punct, vs_punctf) run "
                    "it op-for-op against the engine. Not modelled there: digit separators (they read the commit history; configured off: "
-                   "`digit_separators: \"\"`), punctuator/symbols, a punctuation key that is also a letter of the alphabet. Processors outside the model "
-                   "(ascii_composer, recognizer, key_binder, chord_composer) are covered only "
+                   "`digit_separators: \"\"`), punctuator/symbols, a punctuation key that is also a letter of the alphabet. "
+                   "The key binder is inside the model: KeyBindings::LoadBindings / Bind (bindings of a key sorted by condition, a later one of the same "
+                   "condition first; lookup on the exact keycode + modifier pair), the conditions always / composing / has_menu (off in ascii_mode) / paging "
+                   "(`predicting` never holds: no component of the library sets the tag), ReinterpretPagingKey with last_key_, PerformKeyBinding: send / "
+                   "send_sequence through a nested ConcreteEngine::ProcessKey (processors + shape post-processor) with the binder disabled (the redirecting_ "
+                   "flag: C02.keybinder_nested_chain — one level deep, no fuel), toggle / set_option / unset_option with the Switches lookups (radio groups: "
+                   "cycle, select, reset value; @index; an option no switch declares) and ConcreteEngine::InitializeOptions (`reset:`); the invariant is "
+                   "proved through the re-entrant chain (kbProcess_inv generic in the nested function, processKeyNested_inv, procRun_inv) and two synthetic "
+                   "schemas (vs_kb with punctuator and switches, vs_kbf with the period in the speller's alphabet) run it op-for-op against the engine, the "
+                   "observation line now carrying the values of 11 options. Not modelled there: `select:` bindings (schema switching; the driver refuses a "
+                   "schema that has one), std::stoul's leniency in `@index` targets, a binding changing full_shape when the key binder is not the first "
+                   "processor or full_shape sits in a radio group (refused by the driver). "
+                   "The ascii composer is inside the model: AsciiComposer::ProcessKeyEvent (switch keys Shift_L/R, Control_L/R, Eisu_toggle with "
+                   "shift_key_pressed_ / ctrl_key_pressed_ and the 500 ms deadline — the steady_clock is a parameter of the model, Ctx.clock, and the "
+                   "theorem quantifies over all delays; the harness has a `sleep` op and marks an observation `stall=1` when a release comes >= 450 ms "
+                   "after its press without a sleep, such histories are set aside and counted), ProcessCapsLock (toggle_with_caps_, good_old_caps_lock, "
+                   "letters with the Lock bit committed with swapped case through the formatter), ToggleAsciiModeWithKey / SwitchAsciiMode with the styles "
+                   "inline_ascii / commit_text / commit_code / clear (`noop` entries not loaded, Caps_Lock: inline_ascii -> clear), inline editing and "
+                   "direct commit in ascii_mode; two synthetic schemas (vs_ac: ascii composer + key binder + punctuator, vs_acf: good_old_caps_lock, "
+                   "fluid editor). MODELLING CHOICE: AsciiComposer::OnContextUpdate (the temporary inline mode ends when the composition does) is a "
+                   "listener on Context's update notifier; Ctx.update is shared by every mutator and was left unchanged, the listener's effect "
+                   "(`acSettle`) is applied at the end of each ProcessKey (nested or not) and each API call — exact as long as nothing between the "
+                   "update that ends the composition and that point reads ascii_mode or composes again, which holds for the modelled processors (the "
+                   "readers, ascii composer and key binder, sit at the head of the chain) and is tied by the differential runs. Not modelled there: "
+                   "ascii_segmentor (not in the synthetic segmentor lists: in ascii_mode the input is still segmented by abc_segmentor), the fallback "
+                   "to default.yaml's ascii_composer section when the schema has none. Processors outside the model "
+                   "(recognizer, chord_composer) are covered only "
                    "by the context-layer lemmas plus the WellFormed monitor on a stock-component schema (luna_pinyin's component list over "
                    "tiny dictionaries, digit separators at their default; both tiers, no model behind those runs)."),
     "design_ref": "DESIGN.md §2 M-session, §3 C02",
@@ -51,7 +78,7 @@ def run(c):
     ws = sc.make_workspace(os.path.join(c.work, "ws"), list(sc.SCHEMAS))
     hs, rows_for = sc.standard_histories(c, n_hist, n_ops)
     stats = sc.session_check(c, "C02", monitor, hs, rows_for, exe, ws, "WellFormed(view)")
-    # stock components the model does not port (ascii_composer, recognizer, key_binder, reverse lookup, real translators and
+    # stock components the model does not port (recognizer, ascii_segmentor, `select:` bindings of the key binder, reverse lookup, real translators and
     # filters; the punctuator with digit separators on): the property is monitored on the implementation's observations, no model behind it
     from checks import c01_common as c1
     fws = c1.make_full_workspace(os.path.join(c.work, "fws"), user_dict=False)
@@ -64,7 +91,7 @@ def run(c):
     cov = vlib.proof_cov(audit, "lake build RimeModel.Props.C02 && #print axioms (all theorems) && forbidden-token scan"
                          + ("" if quick else " && leanchecker"), vlib.STD_TRUSTED + ["translator gen/keymaps.py"])
     cov.update({"evaluations": stats["ops"], "distinct_nontrivial": stats["distinct_nontrivial"],
-                "rule": "seeded random API histories (keys over letters/editing/navigation/selection keys with modifiers, select/highlight/delete by global and on-page index incl. out of range, paging, set_input, set_caret_pos, options, commit, clear, get_commit; on the two schemas with a punctuator also punctuation keys pressed 1-6 times in a row alone / after letters / with the caret moved / with a menu open, followed by confirming, selecting, cancelling and editing keys, options ascii_punct and full_shape, set_input of mixed letters and punctuation) on %d synthetic schemas x generated candidate tables, corpus first; non-trivial = observation in a composing state; distinct by (schema, full observation line)" % len(sc.SCHEMAS),
+                "rule": "seeded random API histories (keys over letters/editing/navigation/selection keys with modifiers, select/highlight/delete by global and on-page index incl. out of range, paging, set_input, set_caret_pos, options, commit, clear, get_commit; on the two schemas with a punctuator also punctuation keys pressed 1-6 times in a row alone / after letters / with the caret moved / with a menu open, followed by confirming, selecting, cancelling and editing keys, options ascii_punct and full_shape, set_input of mixed letters and punctuation; on the two schemas with a key binder also every bound key (sometimes with one modifier bit flipped) in each of the states idle / composing without menu / menu open / paged / caret inside / after a selection / punctuation alternatives, period-comma-letter sequences with modified keys, releases and API calls in between, runs of option bindings; plus a directed grid: every bound key x every state, the ReinterpretPagingKey sequences, every option binding four times in a row, pairs of radio-group bindings; on the two schemas with an ascii composer also switch-key taps (release reported with or without the modifier's own bit), a switch key held across another key / switch key / API call, Caps_Lock with the Lock bit clear or set and letters while it is on, typing / editing / committing in ascii mode, ascii_mode through the API; plus a directed grid: every switch key x every state tapped once and twice and held across a letter, a release after `sleep 700`, every way of ending the inline mode) on %d synthetic schemas x generated candidate tables, corpus first; non-trivial = observation in a composing state; distinct by (schema, full observation line)" % len(sc.SCHEMAS),
                 "samples": stats["samples"], "histories": stats["histories"], "op_kind_distribution": stats["kinds"],
                 "observations_with_menu": stats["menus"], "observations_composing": stats["composing"],
                 "commits_read": stats["commits"], "model_impl_disagreements": stats["diffs"],
